@@ -45,6 +45,9 @@ type SStep struct {
 	// Unk (elect): the Uint128 carries a field this schema does not know (a client built from a newer revision);
 	// the id it announces is (High, Low) all the same
 	Unk   bool       `json:"unk,omitempty"`
+	// CloseAfter (ops): the client half-closes right behind the request, without waiting for its responses; for the
+	// model this is the request followed by the half-close
+	CloseAfter bool `json:"close_after,omitempty"`
 	Ops   []OpSpec   `json:"ops,omitempty"`
 	Flush *FlushSpec `json:"flush,omitempty"`
 	Get   *GetSpec   `json:"get,omitempty"`
@@ -317,6 +320,8 @@ func (x *SRun) Step(st SStep) SObs {
 		if len(m.Operation) == 0 {
 			// a request with an empty operation list populates no field
 			rs, err = s.SendN(m, 1)
+		} else if st.CloseAfter {
+			rs, err = s.PushClose(m)
 		} else {
 			rs, err = s.SendBarrier(m)
 		}
@@ -516,6 +521,9 @@ func (st SStep) Coq(o SObs) string {
 			}
 			ops = append(ops, fmt.Sprintf("mk_hop %d %d %s %s (%s) %s %s", op.ID, ni, kind, el, op.EntryCoq(), CoqNs(fails), CoqNs(oks)))
 		}
+		if st.CloseAfter {
+			return fmt.Sprintf("SIn (Msg _ %d (MOps _ %s)); SIn (HalfClose _ %d)", st.S, CoqList(ops), st.S)
+		}
 		return fmt.Sprintf("SIn (Msg _ %d (MOps _ %s))", st.S, CoqList(ops))
 	case "close":
 		return fmt.Sprintf("SIn (HalfClose _ %d)", st.S)
@@ -640,6 +648,13 @@ func (o SObs) Coq(st SStep) string {
 			es = append(es, EntryOfAFT(e))
 		}
 		return "OGet (Some " + CoqList(es) + ")"
+	}
+	if st.K == "ops" && st.CloseAfter && len(st.Ops) > 0 {
+		if o.End != nil && o.End.Code != codes.OK {
+			// the request itself ended the RPC with an error; the half-close behind it finds no session
+			return "OMod (" + OutCoq(ObsOut{Resps: o.Resps, End: o.End}) + "); OMod (" + OutCoq(ObsOut{}) + ")"
+		}
+		return "OMod (" + OutCoq(ObsOut{Resps: o.Resps}) + "); OMod (" + OutCoq(ObsOut{End: o.End}) + ")"
 	}
 	return "OMod (" + OutCoq(ObsOut{Resps: o.Resps, End: o.End}) + ")"
 }
